@@ -169,6 +169,37 @@ def run(ctx, res):
                 res.violations.append({'key': None, 'sig': 'udf-file', 'what': 'call %d of the sequence [udfs.py, udfs_alt.py, udfs.py] in one process differs from the same call alone: %s vs %s'
                                        % (i + 1, str(got)[:160], str(exp)[:160]), 'replay': {'case': c}})
                 break
+    # applied to EACH row: functions none of whose arguments comes from the row (no parameter, constants only) and whose result differs per call
+    # -- the built-in uuid and a key generator -- give as many different terms as there are rows
+    EXN = mapcase.EX
+    BIF = 'https://github.com/morph-kgc/morph-kgc/function/built-in.ttl#'
+    for rep in range(ctx.scale(6, 40)):
+        n = ctx.rng.choice([2, 3, 5, 8])
+        which = ctx.rng.choice(['uuid', 'tick', 'nested'])
+        pos = ctx.rng.choice(['object', 'object-iri', 'subject'])
+        if which == 'uuid':
+            execs = [{'id': EXN + 'ex/E0', 'fun': BIF + 'uuid', 'inputs': []}]
+        elif which == 'tick':
+            execs = [{'id': EXN + 'ex/E0', 'fun': EXN + 'fn/tick', 'inputs': [[EXN + 'fn/p_prefix', 'const', 'k']]}]
+        else:
+            execs = [{'id': EXN + 'ex/E1', 'fun': BIF + 'uuid', 'inputs': []},
+                     {'id': EXN + 'ex/E0', 'fun': GREL + 'toUpperCase', 'inputs': [[GREL + 'valueParam', 'exec', EXN + 'ex/E1']]}]
+        fm = {'object': tm('exec', EXN + 'ex/E0', 'iri', 'lit'), 'object-iri': tm('exec', EXN + 'ex/E0', 'iri', 'iri'), 'subject': tm('exec', EXN + 'ex/E0', 'iri', 'bnode')}[pos]
+        if pos == 'subject':
+            t = {'id': EXN + 'tm/T', 'src': 'S0', 'nonasserted': False, 'subj': fm, 'sjoins': [], 'classes': [], 'sgraphs': [],
+                 'poms': [{'preds': [tm('const', EXN + 'p/q')], 'objs': [{'m': tm('ref', 'id', 'iri', 'lit'), 'lang': None, 'dt': None, 'joins': []}], 'graphs': []}]}
+        else:
+            t = {'id': EXN + 'tm/T', 'src': 'S0', 'nonasserted': False, 'subj': tm('templ', EXN + 's/{id}'), 'sjoins': [], 'classes': [], 'sgraphs': [],
+                 'poms': [{'preds': [tm('const', EXN + 'p/q')], 'objs': [{'m': fm, 'lang': None, 'dt': None, 'joins': []}], 'graphs': []}]}
+        case = {'cfg': {'nquads': False, 'mode': ctx.rng.choice(['NO', 'PARTIAL-AGGREGATIONS', 'MAXIMAL']), 'udfs': 'udfs_state.py', 'udf_source': 'udfs_state.py'},
+                'sources': [{'key': 'S0', 'kind': 'csv', 'cols': ['id'], 'rows': [[str(i + 1)] for i in range(n)]}], 'doc': [t], 'execs': execs}
+        out = family.run_sequence(ctx, [case])[0]
+        res.evaluations += 1
+        res.count('per-call:%s:%s' % (which, pos))
+        terms = set(l.split(' ')[0 if pos == 'subject' else 2] for l in out[1]) if out[0] == 'ok' else set()
+        if out[0] != 'ok' or len(terms) != n:
+            res.violations.append({'key': None, 'sig': 'per-call', 'what': '%s in %s position over %d rows (the function has no row-dependent argument and returns a new value at each call): %d different terms instead of %d: %s'
+                                   % (which, pos, n, len(terms), n, str(out)[:200]), 'replay': {'case': case}})
     # documented contracts of the built-ins on inputs the Gallina registry does not follow (Unicode case mappings ...):
     # reference definitions written here, independent of the code
     words = ['Straße', 'ǅ', 'İstanbul', 'ﬁn', 'ΟΔΥΣΣΕΥΣ', 'ὈΔΥΣΣΕΎΣ', 'µ', 'ß', 'ı', 'Ǆ', 'abc', 'ÀÉ', ' x\u2003', '\x1cq\x85', 'a,b', '', 'ΣΑΣ', 'i̇']
